@@ -413,7 +413,7 @@ def gen_intrnn_cases(rng, thorough):
     nbat = int(np.prod(bshape))
     two = len(bshape) == 2
     lens = None if rng.random() < (0.1 if two else 0.2) else np.array([rng.randrange(1, T + 1) for _ in range(nbat)]).reshape(bshape).tolist()
-    if two and lens is not None:
+    if two and lens is not None and bshape[0] >= 2 and bshape[1] >= 2:
       lens[0][1], lens[1][0] = 1, T  # not symmetric across the two batch axes
     x = np.array([rng.randrange(0, 60) for _ in range(nbat * T * F)]).reshape(bshape + [T, F]).tolist()
     c0 = None
